@@ -10,6 +10,7 @@ import Golib.Conf.FSLemmas
 import Golib.Conf.Reload
 import Golib.Conf.Observers
 import Golib.Conf.FSDurLemmas
+import Golib.Conf.Write
 
 namespace C18Gen
 open Gen.C18 Conf
@@ -80,6 +81,31 @@ theorem map_replaced_and_refilled_in_one_section :
 /-- reload takes the file's stamp once, before it reads the file, and never again
     (`Conf.reloadRacing false`; a stamp taken after the read gives `C18.finding_stamp_after_read`) -/
 theorem stamp_taken_before_read : statCallsInReload = 1 ∧ stampRecordedBeforeRead = true := by decide
+
+/-- the pass-through test of the code, interpreted: `no '=' ∨ HasPrefix(TrimLeft(line, cutset), p)` for the
+    regenerated cutset and prefixes -/
+def genPassThrough (l : Str) : Bool :=
+  (passThroughNoEq && !l.contains '=') ||
+  commentPrefixes.any (fun p => hasPrefix (l.dropWhile (fun c => commentTrimChars.contains c)) p)
+
+theorem comment_test_facts :
+    passThroughNoEq = true ∧ commentTrimChars = [' ', '\t', '\x0c'] ∧ commentPrefixes = [['#'], ['!']] := by decide
+
+/-- interpreted obligation: the test the code applies to decide which lines are copied unchanged is,
+    for every line, the model's `!l.contains '=' || isCommentLine l` (`Conf.writeLine` with fix-D39b) -/
+theorem pass_through_test_is_model (l : Str) :
+    genPassThrough l = (!l.contains '=' || isCommentLine l) := by
+  obtain ⟨h1, h2, h3⟩ := comment_test_facts
+  unfold genPassThrough isCommentLine
+  rw [h1, h2, h3]
+  have hw : (fun c : Char => [' ', '\t', '\x0c'].contains c) = isWs := by
+    funext c
+    simp only [isWs, List.contains, List.elem]
+    cases (c == ' ') <;> cases (c == '\t') <;> cases (c == '\x0c') <;> rfl
+  rw [hw]
+  cases hd : l.dropWhile isWs with
+  | nil => simp [hasPrefix]
+  | cons c t => simp [hasPrefix, isCommentStart]
 
 /-- D44: no properties.Must* call (their error handler terminates the process) -/
 theorem no_must_load : mustLoadCalls = [] := by decide
